@@ -1,6 +1,6 @@
 SPECIFICATION Spec
 CONSTANTS
-  EffTokens = {"pa", "pae", "sp", "in", "pn", "w", "pab"}
+  EffTokens = {"pa", "pae", "sp", "in", "pn", "w", "pab", "pcr", "pcrb"}
   MaxEff = 2
   Modes = {"normal", "exc"}
   FnModes = {"normal"}
